@@ -40,6 +40,13 @@ void TransformedOracle::evalInterval(Interval& out)
 
     underlying->set(rangeLower, rangeUpper);
     underlying->evalInterval(out);
+
+    // The underlying oracle only sees the bounds of the coordinate ranges;
+    // if a coordinate may be NaN somewhere in the region, so may the result.
+    if (!xRange.isSafe() || !yRange.isSafe() || !zRange.isSafe())
+    {
+        out = Interval(out.lower(), out.upper(), true);
+    }
 }
 
 void TransformedOracle::evalPoint(float& out, size_t index)
